@@ -5,6 +5,7 @@ import TornadoModel.C29.RunCE
 import TornadoModel.C29.WireCL
 import TornadoModel.C29.RunVary
 import TornadoModel.C29.RunGz
+import TornadoModel.C29.RunWire
 namespace TornadoModel.C29
 open TornadoModel.C02
 open TornadoModel.C06 (Str normalize)
@@ -217,12 +218,13 @@ theorem wire_content_length_is_encoded_length (gz : Gz) (rq : Req) (ae : Option 
 /-- **vary_on_every_response** (run level, NO side condition: every request shape incl. HEAD, every
     Accept-Encoding, every program — rejected ops and the framework's error page, 304 / 204, handler-set Vary /
     Content-Encoding / Content-Length, any gzip writer): whenever `write_headers` serialises a header block
-    (ghost `head`, set in the same step as the bytes are written), it contains a `Vary` line whose value lists
-    `Accept-Encoding`.  I.e. `transform_first_chunk` runs — on a fresh transform — before every head that is written. -/
+    (ghost `head`), it contains a `Vary` line whose value lists `Accept-Encoding`, **and the bytes on the wire
+    begin with exactly that block** (`headBytes code hs` = status line, the header lines, empty line).  I.e. `transform_first_chunk` runs — on a fresh transform — before every head that is written. -/
 theorem vary_on_every_response (gz : Gz) (rq : Req) (ae : Option Str) (prog : List Op) (code : Nat)
     (hs : List (Str × Str)) (hh : (run gz rq ae prog).base.conn.head = some (code, hs)) :
-    ∃ v, (nVary, v) ∈ hs ∧ Spec.variesOnAE v = true :=
-  (VI_runOps gz rq prog (init rq ae) (VI_init rq ae)).2 code hs hh
+    (∃ v, (nVary, v) ∈ hs ∧ Spec.variesOnAE v = true) ∧
+    ∃ rest, wire (run gz rq ae prog).base.conn = headBytes code hs ++ rest :=
+  ⟨(WQ_run gz rq ae prog).1.2 code hs hh, (WQ_run gz rq ae prog).2.2 code hs hh⟩
 
 /-! non-vacuity: an op that raises (invalid header value) leads to the framework's 500 page — a head is written -/
 example : ((run (fun _ => []) { method := .head, v11 := true, conn := .absent } (some vGzip)
